@@ -24,16 +24,17 @@
 (* Deviation constants (TRUE = prescriptive, FALSE = what the code does):  *)
 (*   SortedMerge         the merged document does not depend on Go map     *)
 (*                       iteration (controllers sorted, unconsumed source  *)
-(*                       transactions folded in event order)     [F7]      *)
+(*                       transactions folded in event order)     [F7-C10-*] *)
 (*   ConflictFlagAtHead  the "was conflicted" flag is read also when the   *)
-(*                       new event becomes the first of the list [F18]     *)
+(*                       new event becomes the first of the list [F18-C10] *)
 (*   ValidatorNilSafe    a null verificationMethod entry / a method        *)
-(*                       without key material is rejected, not a panic [F5]*)
+(*                       without key material is rejected, no panic [F5-C09,  *)
+(*                       repaired in the code by 875b84f: TRUE everywhere] *)
 (*   TimeSeesDeactivation  resolving by time at/after a deactivation does  *)
 (*                       not fall back to the older active version [F19,   *)
 (*                       repaired in the code by a229cbc: TRUE everywhere] *)
 (*   LaxDefects = {}     methods embedded in a verification relationship   *)
-(*                       obey the same id rules as verificationMethod [F20]*)
+(*                       obey the same id rules as verificationMethod [F20-C09]*)
 (***************************************************************************)
 EXTENDS Naturals, FiniteSets, Sequences, TLC
 
